@@ -1,11 +1,15 @@
-"""Structural tie of the C12 model (coq/api) to /repo/internal/execute/execute.go.
+"""Structural ties of three models to statement-level facts of the source that were the subject of `fix:` commits.
 
-`check_api_shape(ctx)` regenerates, with harness/cmd/limiterprobe -set api, the statement shape of Plans.Start,
-Plans.runPlan and Plans.Wait from the repository under test, proves `observed = assumed` (coq/apishape/ApiShape.v)
-by vm_compute in a scratch .v, records the obligations (incl. the named order lemmas of ApiShape.v: the stopper and
-the waiter are registered before pool.Submit; Start holds startMu across lookup, Read and runPlan) and reports a
-mismatch as ctx.violation(..., nofail=True) naming the statement that moved.  Independent of check_mechanisms
-(own Coq project, own assumed list): a change in sm.go does not make C12 alarm.  Fail-closed like SourceShape.
+  check_api_shape(ctx)     C12  coq/api      /repo/internal/execute/execute.go: Start, runPlan, Wait       (ApiShape.v)
+  check_reader_shape(ctx)  C15  coq/query    sqlite + cosmosdb reader.go: Search, List                       (ReaderShape.v)
+  check_run_shape(ctx)     C05  coq/attempts /repo/internal/execute/sm/actions/actions.go: run               (RunShape.v)
+
+Each regenerates, with harness/cmd/limiterprobe -set <set>, the statement shape of its functions from the repository
+under test, proves `observed = assumed` (coq/apishape/<File>.v) by vm_compute in a scratch .v, records the
+obligations (incl. the named order lemmas of that file, proved by vm_compute over the assumed list) and reports a
+mismatch as ctx.violation(..., nofail=True, tag=<own tag>) naming the statement that moved.  The three are
+independent of each other and of check_mechanisms (own assumed list, own source file(s)): a change in one source
+file does not make a property tied to another file alarm.  Fail-closed like SourceShape (UNKNOWN:... tokens).
 """
 import json
 import os
@@ -15,74 +19,106 @@ from vf import framework as fw
 from props.mech import assumed_tokens, describe_diff
 
 PROJ = "apishape"
-LEMMAS = ["assumed_no_unknown", "runPlan_registers_before_submit", "runPlan_submit_ctx_not_cancellable", "start_holds_lock_across_lookup_read_launch",
-          "wait_blocks_on_registered_waiter"]
 
 SCRATCH = """From Coq Require Import List String Bool Arith.
-From Coercion.ApiShape Require Import ApiShape.
+From Coercion.ApiShape Require Import %(mod)s.
 Import ListNotations.
 Open Scope string_scope.
 Definition observed : list (string * list string) :=
-%s.
+%(coq)s.
 Definition report := Eval vm_compute in shape_diff assumed observed.
 Print report.
 Lemma observed_no_unknown : no_unknown observed = true.
 Proof. vm_compute. reflexivity. Qed.
-Lemma api_shape_ok : observed = assumed.
+Lemma %(lemma)s : observed = assumed.
 Proof. vm_compute. reflexivity. Qed.
 """
 
+SETS = dict(
+    api=dict(mod="ApiShape", set="api", tag="apishape", lemma="api_shape_ok", kind="api-source-shape-mismatch",
+             what="Start, runPlan, Wait",
+             lemmas=["assumed_no_unknown", "runPlan_registers_before_submit", "runPlan_submit_ctx_not_cancellable",
+                     "start_holds_lock_across_lookup_read_launch", "wait_blocks_on_registered_waiter"],
+             rests="coq/api Launch step: the waiter and the stopper are registered before the engine goroutine is spawned; "
+                   "Start is serialised by startMu"),
+    readers=dict(mod="ReaderShape", set="readers", tag="readershape", lemma="reader_shape_ok", kind="reader-source-shape-mismatch",
+                 what="sqlite/cosmosdb Search, List",
+                 lemmas=["assumed_no_unknown", "readers_submit_ctx_not_cancellable", "readers_job_defers_put_and_close",
+                         "readers_results_created_before_returned_after", "sqlite_no_early_return_between_take_and_submit"],
+                 rests="coq/query producer (produce_cancelled, c15_stream_closed_any_ctx): the job always runs, streams, then "
+                       "closes the stream and puts the connection back"),
+    attempts=dict(mod="RunShape", set="attempts", tag="runshape", lemma="run_shape_ok", kind="run-source-shape-mismatch",
+                  what="actions.run",
+                  lemmas=["assumed_no_unknown", "run_answer_wins_over_deadline", "run_job_closes_by_defer_sends_once"],
+                  rests="coq/attempts: an answer that has arrived wins over the expired deadline; one send, ch closed by defer"),
+)
 
-def check_api_shape(ctx):
-    """Returns dict(ok, tokens, functions, notes)."""
-    work = os.path.join(ctx.work, "apishape")
+
+def _check(ctx, key):
+    cfg = SETS[key]
+    mod, tag = cfg["mod"], cfg["tag"]
+    work = os.path.join(ctx.work, tag)
     shutil.rmtree(work, ignore_errors=True)
     os.makedirs(work, exist_ok=True)
     res = dict(ok=False, tokens=0, functions=0, notes=[])
     ok, log, where = fw.coq_build([PROJ])
-    for l in LEMMAS:
-        ctx.oblige("api shape lemma ApiShape.%s (coq/%s/ApiShape.v, by vm_compute over the assumed list)" % (l, PROJ), ok)
+    for l in cfg["lemmas"]:
+        ctx.oblige("shape lemma %s.%s (coq/%s/%s.v, by vm_compute over the assumed list)" % (mod, l, PROJ, mod), ok)
     if not ok:
         ctx.violation(dict(kind="coq-build-failed", broken="first failing file: %s" % where, log=log[-3000:]),
-                      nofail=True, tag="apishape")
+                      nofail=True, tag=tag)
         return res
     binp, blog = fw.build_harness("limiterprobe")
     if binp is None:
-        ctx.oblige("api shape: limiterprobe builds", False)
+        ctx.oblige("%s: limiterprobe builds" % tag, False)
         ctx.violation(dict(kind="harness-build-failed", broken="go build ./cmd/limiterprobe", log=blog[-3000:]),
-                      nofail=True, tag="apishape")
+                      nofail=True, tag=tag)
         return res
-    shape = os.path.join(work, "api.json")
-    rc, o = fw.sh([binp, "-set", "api", "-repo", fw.REPO, "-out", shape], cwd=work, env=ctx.env, timeout=120)
+    shape = os.path.join(work, "shape.json")
+    rc, o = fw.sh([binp, "-set", cfg["set"], "-repo", fw.REPO, "-out", shape], cwd=work, env=ctx.env, timeout=120)
     if rc != 0 or not os.path.exists(shape):
-        ctx.oblige("api shape: limiterprobe parses internal/execute/execute.go", False)
-        ctx.violation(dict(kind="api-source-shape-mismatch",
-                           broken="ApiShape.api_shape_ok: the probe could not parse the source", log=o[-2000:]),
-                      nofail=True, tag="apishape")
+        ctx.oblige("%s: limiterprobe parses the source" % tag, False)
+        ctx.violation(dict(kind=cfg["kind"], broken="%s.%s: the probe could not parse the source" % (mod, cfg["lemma"]),
+                           log=o[-2000:]), nofail=True, tag=tag)
         return res
     probe = json.load(open(shape))
     fns = probe["functions"]
+    files = sorted({f.get("file") or probe["file"] for f in fns})
     res.update(tokens=sum(len(f["tokens"]) for f in fns), functions=len(fns))
-    with open(os.path.join(work, "ApiShapeObserved.v"), "w") as f:
-        f.write(SCRATCH % probe["coq"])
-    rc, out = fw.sh(["coqc"] + fw.project_flags(PROJ) + ["ApiShapeObserved.v"], cwd=work, timeout=300)
+    with open(os.path.join(work, mod + "Observed.v"), "w") as f:
+        f.write(SCRATCH % dict(mod=mod, coq=probe["coq"], lemma=cfg["lemma"]))
+    rc, out = fw.sh(["coqc"] + fw.project_flags(PROJ) + [mod + "Observed.v"], cwd=work, timeout=300)
     res["ok"] = rc == 0
-    ctx.oblige("api source shape: observed = assumed (ApiShape.api_shape_ok by vm_compute; %d tokens of Start, runPlan, Wait in %s)"
-               % (res["tokens"], probe["file"]), res["ok"])
+    ctx.oblige("source shape: observed = assumed (%s.%s by vm_compute; %d tokens of %s in %s)"
+               % (mod, cfg["lemma"], res["tokens"], cfg["what"], ", ".join(files)), res["ok"])
     if not res["ok"]:
-        notes = describe_diff(assumed_tokens(os.path.join(fw.project_dir(PROJ), "ApiShape.v")), fns, probe["file"])
+        notes = describe_diff(assumed_tokens(os.path.join(fw.project_dir(PROJ), mod + ".v")), fns, probe["file"])
         res["notes"] = notes
         first = notes[0] if notes else dict(what="no difference found by the driver; see log")
-        ctx.violation(dict(kind="api-source-shape-mismatch",
-                           broken="ApiShape.api_shape_ok (observed = assumed) no longer checks: %s: %s%s%s" % (
-                               first.get("function", "?"), first.get("what"),
+        ctx.violation(dict(kind=cfg["kind"],
+                           broken="%s.%s (observed = assumed) no longer checks: %s: %s%s%s" % (
+                               mod, cfg["lemma"], first.get("function", "?"), first.get("what"),
                                (" `%s`" % first["statement"]) if "statement" in first else "",
                                (" at %s" % first["at"]) if "at" in first else ""),
                            differences=notes[:40],
                            coq_report=dict(meaning="per function: 0 = equal, k+1 = first differing token k",
                                            functions=[f["name"] for f in fns], report=fw.parse_report(out) or []),
-                           rests_on_it="coq/api Launch step: the waiter and the stopper are registered before the engine goroutine is spawned; "
-                                       "Start is serialised by startMu (lemmas %s)" % ", ".join(LEMMAS[1:]),
+                           rests_on_it="%s (lemmas %s)" % (cfg["rests"], ", ".join(cfg["lemmas"][1:])),
                            log=out[-1500:]),
-                      nofail=True, tag="apishape")
+                      nofail=True, tag=tag)
     return res
+
+
+def check_api_shape(ctx):
+    """C12. Returns dict(ok, tokens, functions, notes)."""
+    return _check(ctx, "api")
+
+
+def check_reader_shape(ctx):
+    """C15. Returns dict(ok, tokens, functions, notes)."""
+    return _check(ctx, "readers")
+
+
+def check_run_shape(ctx):
+    """C05. Returns dict(ok, tokens, functions, notes)."""
+    return _check(ctx, "attempts")
